@@ -35,6 +35,22 @@ def nid(f):
     return NameID(name_qualifier=f[0], sp_name_qualifier=f[1], format=f[2], sp_provided_id=f[3], text=f[4])
 
 
+# calling styles: 'shared' = the caller keeps ONE NameID object and rewrites its fields for every call;
+# 'iter' = entity lists are handed over as one-shot iterators
+MODE = {'shared': False, 'iter': False}
+_TEMPLATE = []
+
+
+def N(f):
+    if not MODE['shared']:
+        return nid(f)
+    if not _TEMPLATE:
+        _TEMPLATE.append(nid(f))
+    t = _TEMPLATE[0]
+    t.name_qualifier, t.sp_name_qualifier, t.format, t.sp_provided_id, t.text = f
+    return t
+
+
 def fields(n):
     return tuple((getattr(n, a, None) or None) for a in ATTR)
 
@@ -104,7 +120,7 @@ def apply_op(w, op):
         import zlib
         how = SPELL[zlib.crc32(repr(op).encode()) % 3]
         arg = exp if how == 'int' else (env._real_strftime('%Y-%m-%dT%H:%M:%SZ', env._real_gmtime(exp)) if how == 'str' else env._real_gmtime(exp))
-        w.cache.set(nid(SUBJECTS[s]), src, info_for(ik, s), arg)
+        w.cache.set(N(SUBJECTS[s]), src, info_for(ik, s), arg)
         ref.setdefault(s, {})[src] = (exp, ik)
     elif k == 'add':      # through Population, as the client does on login
         _k, s, src, ik, off = op
@@ -119,12 +135,12 @@ def apply_op(w, op):
         env.Clock.advance(TICK)
     elif k == 'reset':
         _k, s, src = op
-        w.cache.reset(nid(SUBJECTS[s]), src)
+        w.cache.reset(N(SUBJECTS[s]), src)
         ref.setdefault(s, {})[src] = (0, None)
     elif k == 'delete':
         _k, s = op
         try:
-            w.pop.remove_person(nid(SUBJECTS[s]))
+            w.pop.remove_person(N(SUBJECTS[s]))
         except Exception:            # which exception an unknown subject gets is not specified
             if s in ref:
                 return ['delete-of-known-subject-raised']
@@ -145,7 +161,7 @@ def observe(w):
     out = []
     c, p = w.cache, w.pop
     for s, f in SUBJECTS.items():
-        n = nid(f)
+        n = N(f)
         for src in SOURCES:
             for check in (True, False):
                 try:
@@ -167,7 +183,7 @@ def observe(w):
         for ents in (None, ['idp1'], ['idp1', 'idp2']):
             for check in (True, False):
                 try:
-                    ava, old = p.get_identity(nid(f), ents, check)
+                    ava, old = p.get_identity(N(f), (iter(list(ents)) if MODE['iter'] else ents) if ents else ents, check)
                     v = (norm_ava(ava), sorted(old))
                 except Exception:
                     v = 'NODATA'
@@ -288,6 +304,46 @@ def many_subjects(n):
         if not bad and listed != n + 2:
             bad = [('subjects-listing-count-%d-instead-of-%d' % (listed, n + 2), ('subjects',))]
     return n, sorted(set((b[0], str(b[1])) for b in bad))[:6]
+
+
+def forms_eval(hist):
+    """The history once more under the other calling styles (one shared NameID object, iterators as entity lists):
+    all answers still follow the reference."""
+    out = []
+    for shared, it in ((True, False), (False, True), (True, True)):
+        MODE['shared'], MODE['iter'] = shared, it
+        del _TEMPLATE[:]
+        try:
+            with env.in_zone('UTC'):
+                w = World('memory')
+                bad = []
+                for op in hist:
+                    bad = apply_op(w, tuple(op))
+                    if bad:
+                        break
+                if not bad:
+                    bad = compare(observe(w), expected(w))
+                if not bad and len(hist) > 1:
+                    # and once more after a read in between
+                    w2 = World('memory')
+                    for op in hist[:-1]:
+                        apply_op(w2, tuple(op))
+                    observe(w2)
+                    apply_op(w2, tuple(hist[-1]))
+                    bad = compare(observe(w2), expected(w2))
+        finally:
+            MODE['shared'], MODE['iter'] = False, False
+        for b in bad[:3]:
+            out.append((('shared-nameid' if shared else '') + ('+' if shared and it else '') + ('iterator-entities' if it else ''), b[0], str(b[1])))
+    return hist, out
+
+
+def forms_chunk(first):
+    ops = ops_alphabet()
+    res = [forms_eval([list(first)])]
+    for op in ops:
+        res.append(forms_eval([list(first), list(op)]))
+    return [(h, o) for h, o in res if o], len(res)
 
 
 def canon(w):
@@ -426,6 +482,16 @@ def run(ctx):
     CFG['subjects'] = main_subjects
     transitions += tr2
     w0, _ = run_history([])
+    # other calling styles over every history of length <= 2
+    CFG['subjects'] = ('s1', 's2')
+    n_forms = 0
+    for bad_list, n_ in ctx.pmap(forms_chunk, ops_alphabet(), chunksize=2):
+        n_forms += n_
+        for h, outs in bad_list[:5]:
+            for style, kind, q in outs[:2]:
+                ctx.violation({'kind': 'calling-style', 'style': style, 'why': kind, 'query': q, 'ops': h}, {})
+    CFG['subjects'] = main_subjects
+    transitions += n_forms
     # a cache holding many subjects
     n_many = 0
     for n_, bad in ctx.pmap(many_subjects, [5, 999, 1001, 1100, 2100, 5000], chunksize=1):
@@ -441,7 +507,7 @@ def run(ctx):
             'queries_per_state': len(observe(w0)),
             'alphabet': {'subjects': {s: SUBJECTS[s] for s in CFG['subjects']}, 'sources': SOURCES, 'infos': sorted(INFOS),
                          'expiry_offsets': EXPIRIES, 'tick': TICK},
-            'rule': 'a cache that receives 5 / 999 / 1001 / 1100 / 2100 / 5000 further subjects while one subject has a valid and an expired source; a second BFS pass (depth 3) over two subjects whose storage keys would coincide without escaping of separators; expiries passed as seconds / SAML instant / struct_time (a function of the operation); BFS over histories of set/add(Population)/tick/reset/delete on a fresh real Cache (memory) and the same history on the shelve-backed Cache%s (quick: every history of length <= 2; thorough: length <= 3); after every step %d queries (get, active, get_identity with entity lists, entities, stale sources, subjects; with and without expiry checking) are compared with a reference dict under the virtual clock and between the two back-ends; states merged by (reference content, clock) from depth 3 on (histories of length <= 2 are all kept distinct, so that implementation state the reference does not have - caches, memos - is exposed by their futures)' % (' reopened between steps' if ctx.thorough else '', len(observe(w0))),
+            'calling_style_histories': n_forms, 'rule': 'every history of length <= 2 over two subjects again with one shared NameID object rewritten per call and with entity lists handed over as iterators; a cache that receives 5 / 999 / 1001 / 1100 / 2100 / 5000 further subjects while one subject has a valid and an expired source; a second BFS pass (depth 3) over two subjects whose storage keys would coincide without escaping of separators; expiries passed as seconds / SAML instant / struct_time (a function of the operation); BFS over histories of set/add(Population)/tick/reset/delete on a fresh real Cache (memory) and the same history on the shelve-backed Cache%s (quick: every history of length <= 2; thorough: length <= 3); after every step %d queries (get, active, get_identity with entity lists, entities, stale sources, subjects; with and without expiry checking) are compared with a reference dict under the virtual clock and between the two back-ends; states merged by (reference content, clock) from depth 3 on (histories of length <= 2 are all kept distinct, so that implementation state the reference does not have - caches, memos - is exposed by their futures)' % (' reopened between steps' if ctx.thorough else '', len(observe(w0))),
         },
         'assumptions': ['every history is evaluated in a process time zone (UTC, UTC+5, UTC-5) chosen as a function of the history: results must not depend on it',
                         'expiry exactly at now counts as not yet passed (the quantifier lists before/at/after); expiry 0 with non-empty info is not generated',
